@@ -19,6 +19,11 @@ def card_data(rng, d, h, w):
     cells = []
     for i in range(n):
         s = ("%0*d" % (d, i))[-d:] if 10 ** d > n else "".join(str(rng.randrange(10)) for _ in range(d))
+        if d > 4:
+            # wide cells: the index in the low digits keeps them distinct, the high digits are random and the first is large (a cell is a
+            # digit STRING, not a number that fits some machine integer)
+            k = len(str(n))
+            s = str(rng.randint(5, 9)) + "".join(str(rng.randrange(10)) for _ in range(d - 1 - k)) + ("%0*d" % (k, i)) if d > k else s
         cells.append(bytes(int(c) for c in s))
     return b"".join(cells), cells
 
